@@ -30,7 +30,7 @@ ASSUMPTIONS = [
 ]
 REQUIRED_CLASSES = ["rows-with-inactive-knob-reloaded", "call:step", "call:solve", "call:reload-row", "call:reload-tag", "call:tag", "call:disable", "call:enable",
                     "call:clear_log", "log:penalty-increase", "log:take_best-reload", "solve:failed", "solve:succeeded",
-                    "rows-reloaded"]
+                    "rows-reloaded", "log:take_best-reload-after-an-earlier-solve-succeeded"]
 
 
 @st.composite
@@ -45,7 +45,22 @@ def cases(draw):
     tags = []
     for _ in range(draw(st.integers(2, 10))):
         k = draw(st.sampled_from(["step"] * 5 + ["solve", "solve", "reload-row", "reload-row", "reload-tag", "tag", "tag",
-                                  "disable", "enable", "clear_log", "episode", "episode"]))
+                                  "disable", "enable", "clear_log", "episode", "episode", "episode-solved", "episode-solved"]))
+        if k == "episode-solved" and m >= 2:
+            # a point within tolerance is FOUND for a sub-problem (one target disabled, solve), then the problem changes
+            # (target enabled again, optionally back to an old row) and further steps are taken: whatever the optimizer
+            # remembers of the earlier success must not switch off take_best for the new problem
+            idx = draw(st.integers(0, m - 1))
+            script.append({"op": "disable", "what": "target", "idx": idx, "by": "id"})
+            script.append({"op": "solve", "n": None, "take_best": True, "broyden": False})
+            script.append({"op": "enable", "what": "target", "idx": idx, "by": "id"})
+            if draw(st.booleans()):
+                script.append({"op": "reload-row", "row": draw(st.integers(0, 3))})
+            for _ in range(draw(st.integers(1, 3))):
+                script.append({"op": "step", "n": draw(st.integers(1, 3)), "take_best": True, "broyden": False})
+            continue
+        if k == "episode-solved":
+            k = "step"
         if k == "episode":
             # rows logged while a knob (or target) is inactive, after which it is enabled again and moves on:
             # reloading such a row later must bring back the inactive knob's value and the flags
@@ -133,6 +148,8 @@ def exec_case(ctx, spec):
                 reloaded = log["tag"][-1] == "take_best"
                 if reloaded:
                     classes.add("log:take_best-reload")
+                    if "solve:succeeded" in classes:
+                        classes.add("log:take_best-reload-after-an-earlier-solve-succeeded")
                     state["nt"] = True
                 rows = list(range(i_start, L - 1 if reloaded else L))
                 pens = [log["penalty"][r] for r in rows]
